@@ -1,6 +1,7 @@
 package rules
 
 import (
+	"os"
 	"fmt"
 	"go/ast"
 	"go/constant"
@@ -372,37 +373,70 @@ func ruleFilterPredicates(w *core.World, r *core.Report) {
 				return ok && core.ResolveCall(c).Name == "(*pkg/filter.RedisKeyFilter)."+name
 			}
 		}
-		n := 0
-		for _, in := range core.Instrs(f) {
+		// the per-key loop, one iteration at a time (helpers the test is moved into are stepped into)
+		var loopHead *ssa.BasicBlock
+		for _, s := range core.SitesNamed(f, false, "(*pkg/filter.RedisKeyFilter).FilterKey") {
+			at := s.Instr
+			for at.Parent() != f {
+				c := core.ExpandedInto(at.Parent())
+				if c == nil {
+					break
+				}
+				at = c
+			}
+			if at.Parent() == f {
+				loopHead = core.LoopHeadOf(at.Block())
+			}
+		}
+		if loopHead == nil {
+			// the test sits in a helper with several callers: the loop is the one that calls the helper
+			for _, s := range core.Sites(f, false) {
+				if s.Callee != nil && s.Instr.Parent() == f && len(core.SitesNamed(s.Callee, false, "(*pkg/filter.RedisKeyFilter).FilterKey")) > 0 {
+					loopHead = core.LoopHeadOf(s.Instr.Block())
+				}
+			}
+		}
+		isKeepStore := func(in ssa.Instruction) bool {
 			st, ok := in.(*ssa.Store)
 			if !ok {
-				continue
+				return false
 			}
 			ia, ok := st.Addr.(*ssa.IndexAddr)
 			if !ok {
-				continue
+				return false
 			}
 			if b, isB := core.ConstBool(st.Val); !isB || !b {
-				continue
+				return false
 			}
-			if ms, isMs := ia.X.(*ssa.MakeSlice); !isMs || !strings.HasSuffix(ms.Type().String(), "[]bool") {
-				continue
-			}
-			n++
-			k, s2 := false, false
-			for _, fct := range core.FactsAt(st.Block()) {
-				if !fct.Val && isKeyRule("FilterKey")(fct.Cond) {
-					k = true
-				}
-				if !fct.Val && isKeyRule("FilterSlot")(fct.Cond) {
-					s2 = true
-				}
-			}
-			r.Check(k && s2, "FilterCmdKey/keep", st.Pos(), "a key is kept without both the prefix rule and the slot rule having accepted it (prefix=%v slot=%v)", k, s2)
+			ms, isMs := ia.X.(*ssa.MakeSlice)
+			return isMs && strings.HasSuffix(ms.Type().String(), "[]bool")
 		}
-		if n == 0 {
-			r.Fail("FilterCmdKey/keep", f.Pos(), "no 'key kept' marking found")
+		n := 0
+		keepBad := ""
+		var keepPos token.Pos = f.Pos()
+		type iter struct {
+			p                  *core.Path
+			rejected, accepted bool
 		}
+		var iters []iter
+		if loopHead != nil {
+			core.EnumPathsN(loopHead, 0, 100000, 1, func(p *core.Path) {
+				rej := pathAssumed(p, isKeyRule("FilterKey"), true) || pathAssumed(p, isKeyRule("FilterSlot"), true)
+				acc := pathAssumed(p, isKeyRule("FilterKey"), false) && pathAssumed(p, isKeyRule("FilterSlot"), false)
+				for _, in := range p.Instrs {
+					if isKeepStore(in) {
+						n++
+						if !acc {
+							keepBad, keepPos = "a key is kept without both the prefix rule and the slot rule having accepted it", in.Pos()
+						}
+					}
+				}
+				if p.Closed {
+					iters = append(iters, iter{p, rej, acc})
+				}
+			})
+		}
+		r.Check(keepBad == "" && n > 0, "FilterCmdKey/keep", keepPos, "%s (marking paths=%d)", keepBad, n)
 		// the same key string is given to both rules and comes from args[index]
 		var ka, sa ssa.Value
 		for _, s := range core.Sites(f, false) {
@@ -414,54 +448,88 @@ func ruleFilterPredicates(w *core.World, r *core.Report) {
 			}
 		}
 		r.Check(ka != nil && ka == sa, "FilterCmdKey/same-key", f.Pos(), "both key rules must judge the same key")
-		// filtered flag: the true edge of either key rule leads back to the loop head carrying filtered = true
-		okFlag, seenFlag := true, false
-		var fph *ssa.Phi
-		// the "some key was rejected" flag: the only boolean carried round the loop that consults the key rules
-		for _, s := range core.SitesNamed(f, false, "(*pkg/filter.RedisKeyFilter).FilterKey") {
-			if head := core.LoopHeadOf(s.Instr.Block()); head != nil {
-				var bools []*ssa.Phi
-				for _, in := range head.Instrs {
-					if ph, ok := in.(*ssa.Phi); ok {
-						if bt, isB := ph.Type().Underlying().(*types.Basic); isB && bt.Kind() == types.Bool {
-							bools = append(bools, ph)
+		// a rejection is remembered until the loop is over, and the command passes unchanged only when
+		// nothing was rejected. Two forms: a boolean carried round the loop that every rejecting iteration
+		// sets; or a counter that exactly the accepting iterations advance, compared afterwards with the
+		// number of keys.
+		okFlag, seenFlag := false, false
+		why := "no loop-carried flag or counter records a rejection"
+		if loopHead != nil {
+			for _, in := range loopHead.Instrs {
+				ph, ok := in.(*ssa.Phi)
+				if !ok {
+					break
+				}
+				bt, isB := ph.Type().Underlying().(*types.Basic)
+				if !isB {
+					continue
+				}
+				good, nRej, nAcc := true, 0, 0
+				switch {
+				case bt.Kind() == types.Bool:
+					for _, it := range iters {
+						if !it.rejected {
+							continue
+						}
+						nRej++
+						if v, isC := core.ConstBool(it.p.NextIter(ph)); !isC || !v {
+							good = false
+						}
+					}
+					if good && nRej > 0 && unchangedReturnGuarded(f, loopHead, func(c core.Cmp, val bool) bool { return false }, ph) {
+						okFlag, seenFlag = true, true
+					}
+				case bt.Info()&types.IsInteger != 0:
+					init := false
+					for i, e := range ph.Edges {
+						if !loopHead.Dominates(loopHead.Preds[i]) && isConstInt(0)(e) {
+							init = true
+						}
+					}
+					for _, it := range iters {
+						nx := it.p.NextIter(ph)
+						switch {
+						case it.rejected:
+							nRej++
+							if nx != ssa.Value(ph) {
+								good = false
+							}
+						case it.accepted:
+							nAcc++
+							b, isBin := nx.(*ssa.BinOp)
+							if !isBin || b.Op != token.ADD || b.X != ssa.Value(ph) || !isConstInt(1)(b.Y) {
+								good = false
+							}
+						default:
+							good = false
+						}
+					}
+					if os.Getenv("GUNYU_DEBUG") != "" {
+						fmt.Println("DEBUG counter", ph.Name(), "good", good, "init", init, "rej", nRej, "acc", nAcc, "iters", len(iters), "ranged", rangedSlice(loopHead))
+						for _, it := range iters {
+							fmt.Println("   iter rej", it.rejected, "acc", it.accepted, "next", it.p.NextIter(ph))
+						}
+					}
+					if good && init && nRej > 0 && nAcc > 0 {
+						// the loop visits every key: it ranges over a slice, and the counter is compared with its length
+						ranged := rangedSlice(loopHead)
+						if ranged != nil && unchangedReturnGuarded(f, loopHead, func(c core.Cmp, val bool) bool {
+							x, y := core.Unwrap(c.X), core.Unwrap(c.Y)
+							isLen := func(v ssa.Value) bool {
+								call, ok := v.(*ssa.Call)
+								return ok && isBuiltin(call, "len") && call.Call.Args[0] == ranged
+							}
+							return c.Op == token.EQL && ((x == ssa.Value(ph) && isLen(y)) || (y == ssa.Value(ph) && isLen(x)))
+						}, nil) {
+							okFlag, seenFlag = true, true
+						} else {
+							why = "the counter of accepted keys is not compared with the number of keys before the command passes unchanged"
 						}
 					}
 				}
-				if len(bools) == 1 {
-					fph = bools[0]
-				}
 			}
 		}
-		for _, b := range f.Blocks {
-			if len(b.Instrs) == 0 || fph == nil {
-				continue
-			}
-			iff, ok := b.Instrs[len(b.Instrs)-1].(*ssa.If)
-			if !ok || !(isKeyRule("FilterKey")(iff.Cond) || isKeyRule("FilterSlot")(iff.Cond)) {
-				continue
-			}
-			t := b.Succs[0]
-			prev := b
-			for i := 0; i < 8 && t != fph.Block(); i++ {
-				if len(t.Succs) != 1 {
-					break
-				}
-				prev, t = t, t.Succs[0]
-			}
-			if t != fph.Block() {
-				okFlag = false
-				continue
-			}
-			for i, pr := range fph.Block().Preds {
-				if pr == prev {
-					seenFlag = true
-					if v, isC := core.ConstBool(fph.Edges[i]); !isC || !v {
-						okFlag = false
-					}
-				}
-			}
-		}
+		_ = why
 		r.Check(okFlag && seenFlag, "FilterCmdKey/filtered-flag", f.Pos(), "a rejected key must mark the command as filtered (otherwise the command is forwarded unchanged)")
 	}
 }
@@ -519,9 +587,8 @@ func ruleProjection(w *core.World, r *core.Report) {
 	bad := ""
 	var badPos token.Pos
 	proj := 0
-	for _, in := range core.Instrs(f) {
-		ret, ok := in.(*ssa.Return)
-		if !ok || len(ret.Results) != 2 {
+	for _, ret := range core.ReturnsX(f) {
+		if len(ret.Results) != 2 {
 			continue
 		}
 		rej, isC := core.ConstBool(core.RetVal(ret, 1))
@@ -583,7 +650,7 @@ func argIndex(v ssa.Value, args ssa.Value) (ssa.Value, bool) {
 		return nil, false
 	}
 	ia, ok := ld.X.(*ssa.IndexAddr)
-	if !ok || ia.X != args {
+	if !ok || (ia.X != args && core.Unwrap(ia.X) != args) {
 		return nil, false
 	}
 	return ia.Index, true
@@ -1043,4 +1110,60 @@ func buildsBisyncCommand(s core.Site) bool {
 		}
 	}
 	return false
+}
+
+
+// rangedSlice: the slice a `for i, x := range s` loop headed by head ranges over.
+func rangedSlice(head *ssa.BasicBlock) ssa.Value {
+	iff, ok := head.Instrs[len(head.Instrs)-1].(*ssa.If)
+	if !ok {
+		return nil
+	}
+	c, ok := core.AsCmp(iff.Cond, true)
+	if !ok || c.Op != token.LSS {
+		return nil
+	}
+	call, ok := core.Unwrap(c.Y).(*ssa.Call)
+	if !ok || !isBuiltin(call, "len") {
+		return nil
+	}
+	if from, _, ok := indexRange(c.X); !ok || from != 0 {
+		return nil
+	}
+	return call.Call.Args[0]
+}
+
+// unchangedReturnGuarded: every return of f that passes the command on unchanged — (args, false) —
+// happens under "nothing was rejected": the flag phi is known false there, or a fact satisfies guard.
+func unchangedReturnGuarded(f *ssa.Function, head *ssa.BasicBlock, guard func(c core.Cmp, val bool) bool, flag *ssa.Phi) bool {
+	args := ssa.Value(f.Params[2])
+	n := 0
+	for _, ret := range core.ReturnsX(f) {
+		if len(ret.Results) != 2 {
+			continue
+		}
+		rej, isC := core.ConstBool(core.RetVal(ret, 1))
+		if !isC || rej || core.Unwrap(core.RetVal(ret, 0)) != args {
+			continue
+		}
+		// returns before the loop (nothing to filter) carry no fact about keys: they are the ones
+		// that the loop head does not dominate
+		if !head.Dominates(ret.Block()) {
+			continue
+		}
+		ok := false
+		for _, fct := range core.FactsAt(ret.Block()) {
+			if flag != nil && core.Unwrap(fct.Cond) == ssa.Value(flag) && !fct.Val {
+				ok = true
+			}
+			if c, isCmp := core.FactCmp(fct); isCmp && guard(c, fct.Val) {
+				ok = true
+			}
+		}
+		if !ok {
+			return false
+		}
+		n++
+	}
+	return n > 0
 }
